@@ -851,6 +851,12 @@ func runC16(x *xctx) *violation {
 	}
 	fileOnly := n > 10 && t.Bool(K, 50)
 	commented := t.Bool(K, 60)
+	// With several 128-source chunks: one whole chunk (the first, a middle or
+	// the last one) in which every source fails.
+	deadChunk := -1
+	if n > 128 && t.Bool(K, 30) {
+		deadChunk = t.Choose(K, (n+127)/128)
+	}
 	for i := 0; i < n+nb; i++ {
 		s := &c16src{idx: i, base: i >= n}
 		s.kind = t.Choose(K, 3)
@@ -861,6 +867,9 @@ func runC16(x *xctx) *violation {
 			s.kind = skFile
 		}
 		s.fault = c16FaultFor(t, s.kind, pctFail)
+		if deadChunk >= 0 && i < n && i/128 == deadChunk {
+			s.fault = c16FaultFor(t, s.kind, 100)
+		}
 		s.samples = c16GenSamples(t)
 		s.tornAt = 1 + t.Choose(simrt.KFault, 200)
 		if commented {
